@@ -55,12 +55,12 @@ fn f2_of(scs: &Scs, keep: [usize; 2]) -> Result<f64, String> {
 pub fn eval(ctx: &Ctx, op: &str, a: &[&str]) -> Option<String> {
     match op {
         // st.mem kinds shape bits
-        "st.mem" => {
+        "st.calc" => {
             let scs = match Scs::new(parse_bits(a[2]), parse_nats(a[1])) { Ok(s) => s, Err(_) => return Some("NOSPECTRUM".into()) };
             Some(a[0].split(',').map(|k| calc(k, &scs)).collect::<Vec<_>>().join(";"))
         }
         // st.cli kinds precision shape bits   (the binary on an npy input carrying the exact bits)
-        "st.cli" => {
+        "st.cmd" => {
             let input = crate::npy::write_f8(&parse_nats(a[2]), &parse_bits(a[3]));
             let args = vec!["stat".to_string(), "-s".into(), a[0].to_string(), "--precision".into(), a[1].to_string()];
             let o = cli::run_sfs(&ctx.sfs_bin, &args, &input);
@@ -144,7 +144,7 @@ pub fn gen_c06(ctx: &Ctx, rng: &mut Rng, out: &mut Vec<String>) {
     for n in ns {
         let zp = if rng.chance(1, 3) { 6 } else { 1 };
         let data = counts(rng, n + 1, zp);
-        out.push(format!("st.mem\tpi,theta,d-tajima,d-fu-li,s,sum\t{}\t{}", n + 1, bits(&data)));
+        out.push(format!("st.calc\tpi,theta,d-tajima,d-fu-li,s,sum\t{}\t{}", n + 1, bits(&data)));
     }
     // (b) all 14 statistics on spectra of every dimensionality, unequal axis lengths; wrong dimensionality gives the error
     for i in 0..(if t { 1500 } else { 160 }) {
@@ -152,10 +152,10 @@ pub fn gen_c06(ctx: &Ctx, rng: &mut Rng, out: &mut Vec<String>) {
             4 => shapes::random_shape(rng, 3, 3, 2, 6, 250), 5 => shapes::random_shape(rng, 4, 4, 2, 5, 400), _ => shapes::random_shape(rng, 1, 4, 2, 7, 300) };
         let n: usize = shape.iter().product();
         let data = counts(rng, n, if i % 5 == 0 { 4 } else { 1 });
-        out.push(format!("st.mem\t{}\t{}\t{}", KINDS.join(","), nats(&shape), bits(&data)));
+        out.push(format!("st.calc\t{}\t{}\t{}", KINDS.join(","), nats(&shape), bits(&data)));
         if i % 4 == 0 {
             let ks = applicable(shape.len(), &shape);
-            out.push(format!("st.cli\t{}\t{}\t{}\t{}", ks.join(","), *rng.pick(&[12usize, 6, 15]), nats(&shape), bits(&data)));
+            out.push(format!("st.cmd\t{}\t{}\t{}\t{}", ks.join(","), *rng.pick(&[12usize, 6, 15]), nats(&shape), bits(&data)));
         }
     }
     // (c) genotype level: call sets -> create -> statistics, against the definitions evaluated on the genotypes
